@@ -61,6 +61,18 @@ def walk_local(node: ast.AST, include_root: bool = True) -> tp.Iterator[ast.AST]
         stack.extend(reversed(list(ast.iter_child_nodes(n))))
 
 
+def doc_order(root: ast.AST) -> tp.Dict[int, int]:
+    """id(node) -> position in a depth-first, source-order walk of root.  Line numbers do not order statements the model spliced in from a helper
+    (they keep the helper's own lines, for reporting); this does."""
+    out: tp.Dict[int, int] = {}
+    stack = [root]
+    while stack:
+        n = stack.pop()
+        out[id(n)] = len(out)
+        stack.extend(reversed(list(ast.iter_child_nodes(n))))
+    return out
+
+
 def walk_stmts(body: tp.Sequence[ast.stmt]) -> tp.Iterator[ast.stmt]:
     '''All statements, in source order, nested compound statements included, nested scopes excluded.'''
     for s in body:
@@ -955,6 +967,7 @@ def _inline_single_call_helpers(trees: tp.Sequence[ast.AST]) -> None:
     if not cands:
         return
     site_no = [0]
+    spliced: tp.Dict[str, int] = {}
     for tree in trees:
         nested = {id(g) for f in ast.walk(tree) if isinstance(f, (ast.FunctionDef, ast.AsyncFunctionDef)) for b in f.body for g in ast.walk(b)
                   if isinstance(g, (ast.FunctionDef, ast.AsyncFunctionDef))}
@@ -1109,9 +1122,18 @@ def _inline_single_call_helpers(trees: tp.Sequence[ast.AST]) -> None:
                             if not ok[0]:
                                 continue
                             new = pre + tail
+                        origin = (hcls.name + '.' if hcls is not None else '') + h.name
+                        spliced[nm] = spliced.get(nm, 0) + 1
+                        for b_ in new:
+                            for x in ast.walk(b_):
+                                if isinstance(x, ast.stmt) and not hasattr(x, '_sfa_origin'):
+                                    x._sfa_origin = origin          # exception tables are keyed by the function a statement was written in
                         st[i - 1:i] = new
                         i += len(new) - 1
             ast.fix_missing_locations(fn)
+    for nm, k in spliced.items():
+        if k == ncalls.get(nm, 0):
+            cands[nm][0]._sfa_fully_spliced = True      # every execution of this body is analysed where it was spliced in
     for tree in trees:
         _fold_simple_generators(tree)
         _split_tuple_assigns(tree)
